@@ -236,3 +236,16 @@ package tls
 //@   assume-pure AddBytes
 //@   note assume-pure: Builder.AddBytes appends to builder-private state only
 //@   modifies nothing
+
+// C34 / C33 (no hang): handleKeyUpdate answers a KeyUpdate(update_requested) while holding the write lock c.out.
+// sendAlert takes that (non-reentrant) lock itself, so it is called only while c.out is NOT held by this function;
+// the lock is released on every return. Lock discipline only (`track locks`), thin contract.
+//@ func (*Conn).handleKeyUpdate
+//@   property C34 C33
+//@   unchecked safety pre
+//@   note unchecked: thin contract of an upstream function (lock discipline only); panic-freedom and callee preconditions are listed assumptions
+//@   track locks
+//@   requires c != nil && keyUpdate != nil
+//@   at before call sendAlert#*: assert not_holding_out: !called(Lock, 0)
+//@   note not_holding_out: holds for EVERY call of sendAlert in the function (`#*`)
+//@   ensures released: called(Lock, 0) ==> ghost(lockst, callarg(Lock, 0, 0)) == 0
